@@ -93,4 +93,13 @@ theorem lexAdds_ext (adds : List SrcAdd) (h : ∀ a ∈ adds, addNamesOk a = tru
     | comp c => simp only [addNamesOk, Bool.not_eq_true'] at ha; simp [lexAdd, addExt, ha]
     | group v cs => simp [lexAdd, addExt, isGroupName_group]
 
+theorem flatMap_congr' {α β : Type} {f g : α → List β} : ∀ (l : List α), (∀ a ∈ l, f a = g a) → l.flatMap f = l.flatMap g := by
+  intro l
+  induction l with
+  | nil => intro _; rfl
+  | cons a t ih =>
+    intro h
+    simp only [List.flatMap_cons]
+    rw [h a List.mem_cons_self, ih (fun x hx => h x (List.mem_cons_of_mem _ hx))]
+
 end Proofs.Struct
